@@ -35,6 +35,20 @@ func circCorpus() []*hc.Case {
 		}
 		cs = append(cs, circCase(circParams{Mode: "normal", Opener: openerSpec{Kind: "hystrix", N: 10, Dur: 10 * sec, Pct: pct, Vol: 100}, Closer: closerSpec{Kind: "never"}, Live: lv}, ops))
 	}
+	// the opener's window after a transition AND a full roll-over: outcomes from before the transition must neither count
+	// nor be subtracted twice when their buckets leave the window (volume 3: three failures open; close; 10.5 s later
+	// three failures must open again)
+	{
+		var ops []circOp
+		for i := 0; i < 3; i++ {
+			seqCall(&ops, i, "err")
+		}
+		ops = append(ops, circOp{K: "tick", D: sec}, circOp{K: "close"}, circOp{K: "tick", D: 9*sec + sec/2})
+		for i := 3; i < 6; i++ {
+			seqCall(&ops, i, "err")
+		}
+		cs = append(cs, circCase(circParams{Mode: "normal", Opener: openerSpec{Kind: "hystrix", N: 10, Dur: 10 * sec, Pct: 50, Vol: 3}, Closer: closerSpec{Kind: "never"}, Live: lv}, ops))
+	}
 	// D7: OpenCircuit / CloseCircuit stamp notifications with the circuit's clock
 	cs = append(cs, circCase(circParams{Mode: "normal", Opener: openerSpec{Kind: "hystrix", N: 10, Dur: 10 * sec, Pct: 50, Vol: 20}, Closer: closerSpec{Kind: "hystrix", Sleep: sec, HalfOpen: 1, Required: 1}, Live: lv, NCirc: 2},
 		[]circOp{{K: "tick", D: 5}, {K: "open"}, {K: "open"}, {K: "tick", D: 7}, {K: "close"}, {K: "close"}, {K: "open"}}))
